@@ -321,7 +321,7 @@ func writeCex(path, prop string, v *engine.Violation) {
 	}
 	out := map[string]interface{}{
 		"property": prop, "assert_id": v.AssertID, "harness": v.Harness,
-		"ints": ints, "strings": v.Strings, "notes": v.Notes, "panic": v.Panic,
+		"ints": ints, "strings": v.Strings, "notes": v.Notes, "panic": v.Panic, "trace": v.Trace,
 	}
 	b, _ := json.MarshalIndent(out, "", " ")
 	os.WriteFile(path, b, 0o644)
